@@ -228,4 +228,29 @@ def cosSeries (a : List C) : Trig C := ⟨a, []⟩
 
 end Trig
 
+/-- self-test of the trigonometric CAS over `ℚ[ε]/ε^5`: textbook identities the product, derivative and Taylor shift must reproduce -/
+def trigSelfTest : Bool :=
+  let R := Ops.poly 5
+  let one : Trig Poly := Trig.const [1]
+  let cosφ : Trig Poly := ⟨[[], [1]], []⟩
+  let sinφ : Trig Poly := ⟨[], [[], [1]]⟩
+  let cos3 : Trig Poly := ⟨[[], [], [], [1]], []⟩
+  let sin2 : Trig Poly := ⟨[], [[], [], [1]]⟩
+  let eps : Trig Poly := Trig.const [0, 1]
+  -- sin² + cos² = 1
+  Trig.eq R (Trig.add R (Trig.mul R sinφ sinφ) (Trig.mul R cosφ cosφ)) one
+  -- (cos φ + sin φ)² = 1 + sin 2φ
+  && Trig.eq R (Trig.mul R (Trig.add R cosφ sinφ) (Trig.add R cosφ sinφ)) (Trig.add R one sin2)
+  -- cos 3φ = 4 cos³φ − 3 cos φ
+  && Trig.eq R cos3 (Trig.sub R (Trig.smul R 4 (Trig.mul R cosφ (Trig.mul R cosφ cosφ))) (Trig.smul R 3 cosφ))
+  -- sin 2φ · cos 3φ = ½(sin 5φ − sin φ)
+  && Trig.eq R (Trig.mul R sin2 cos3) ⟨[], [[], [-1/2], [], [], [], [1/2]]⟩
+  -- d/dφ (sin 2φ · cos 3φ) = 2 cos 2φ cos 3φ − 3 sin 2φ sin 3φ
+  && Trig.eq R (Trig.deriv R (Trig.mul R sin2 cos3))
+       (Trig.sub R (Trig.smul R 2 (Trig.mul R ⟨[[], [], [1]], []⟩ cos3)) (Trig.smul R 3 (Trig.mul R sin2 ⟨[], [[], [], [], [1]]⟩)))
+  -- sin(φ + ε) = sin φ · cos ε + cos φ · sin ε  (mod ε^5)
+  && Trig.eq R (Trig.shift R 4 sinφ eps) ⟨[[], [0, 1, 0, -1/6]], [[], [1, 0, -1/2, 0, 1/24]]⟩
+  -- sin(2(φ + ε sin φ)) to first order: sin 2φ + 2ε sin φ cos 2φ = sin 2φ + ε (sin 3φ − sin φ)   (mod ε²)
+  && Trig.eq (Ops.poly 2) (Trig.shift (Ops.poly 2) 1 sin2 (Trig.mul (Ops.poly 2) eps sinφ)) ⟨[], [[], [0, -1], [1], [0, 1]]⟩
+
 end GeoVerif.Series
